@@ -12,7 +12,9 @@ with the machine width explicit: every `i16`/`i32` addition goes through `addW`,
 `rawCore pre` is the model: `pre = true` is the code *before* the two repairs
 `fixes/C10-a.patch` (files shorter than 24 bytes are rejected with
 `InternalFileLengthIsTooSmall`) and `fixes/C10-b.patch` (`valid_lf` is summed in `i32`);
-`pre = false` is the repaired code, which is what the theorems are about.
+`pre = false` is the repaired code, which is what the theorems are about. The limit on the
+number of extensible recipes is the repaired one of `fixes/C10-k.patch` (`ne > 256`, as in
+TFtoPL.2014.21) for both values of `pre`.
 Only the first 24 bytes and the length of the file are looked at by this code, so the model
 takes exactly those (`rawDeserialize b = rawCore false (b.take 24) b.length`).
 
